@@ -98,4 +98,39 @@ def vaStep (v : Va) : VaEv → Va
 
 def vaRun (v : Va) (evs : List VaEv) : Va := evs.foldl vaStep v
 
+/-! ## the other subscriptions: logs, service calls, home-assistant states, advertisements, connections-free -/
+
+inductive OKind | log | svc | ha | adv | raw | free
+deriving DecidableEq, Repr
+
+inductive OEv
+  | msg (k : OKind) (id : Nat) (once : Bool)     -- a device message (`once` is read for home-assistant state subscriptions only)
+  | unsub (k : OKind)                             -- the unsubscribe function returned for `k` is called
+deriving DecidableEq, Repr
+
+inductive OOut
+  | handler (k : OKind) (id : Nat)               -- the subscription's handler
+  | request (id : Nat)                            -- the optional one-shot handler of `subscribe_home_assistant_states`
+deriving DecidableEq, Repr
+
+structure OSub where
+  active : List OKind            -- kinds with a live subscription
+  hasRequest : Bool              -- `on_state_request` was given
+deriving Repr
+
+/-- `on_subscribe_home_assistant_state_response`: the one-shot handler gets `once` messages if it was given; everything
+else goes to the subscription handler; all other kinds: the handler, once -/
+def oDeliver (s : OSub) (k : OKind) (id : Nat) (once : Bool) : List OOut :=
+  if !s.active.contains k then []
+  else if k = .ha ∧ s.hasRequest ∧ once then [.request id]
+  else [.handler k id]
+
+def oStep (s : OSub) : OEv → OSub × List OOut
+  | .msg k id once => (s, oDeliver s k id once)
+  | .unsub k => ({ s with active := s.active.filter (· ≠ k) }, [])
+
+def oRun : OSub → List OEv → List OOut
+  | _, [] => []
+  | s, e :: es => (oStep s e).2 ++ oRun (oStep s e).1 es
+
 end Esp.Subs
